@@ -1877,3 +1877,17 @@ Proof.
   intros Hne Hs Hs' Hp E. unfold resolve.
   now rewrite hwp_with_port, hwp_without_port, E by assumption.
 Qed.
+
+(* C10_request_ignores_sni *)
+Lemma request_ignores_sni ops :
+  Forall legal ops ->
+  let w := run empty_world ops in
+  (forall host sni, resolve_request (w_gw w) host sni = resolve (w_gw w) host
+                    /\ request_code (w_gw w) host sni = filter_code (w_gw w) host)
+  /\ (forall o host sni, In o (w_api w) ->
+        (option_map i_cluster (resolve_request (w_gw w) host sni) = Some (lowname o)
+         <-> In (host_without_port host) (allnames o))).
+Proof.
+  intros Hleg w. split; [intros; split; reflexivity|].
+  intros o host sni Ho. destruct (resolves_iff ops Hleg) as [H _]. exact (H o host Ho).
+Qed.
